@@ -84,107 +84,112 @@ theorem source_layout :
 /-- Normalised statement text of the functions that the model mirrors by hand and that
 T-sszwrap does not interpret: the per-type dispatch (which wrapper a type uses, the
 `VersionedAttestation` fallback to the index-less form on any failure), `AttestationData`,
-`attesterDutySSZ`, `marshal` / `unmarshal` and the four set encoders. Any edit of these functions
-makes this theorem fail (the obligation is then reported as no longer shown). -/
+`attesterDutySSZ`, `marshal` / `unmarshal` and the four set encoders. The text is modulo
+α-renaming: T-sszwrap renames the receiver `r0`, the parameters `p0, p1, …` by position, named results
+`o0, …` and the locals `v0, v1, …` in order of declaration before printing, so the names chosen in the
+Go source do not occur; any other edit of these functions (a statement added, removed, reordered or
+changed) makes this theorem fail (the obligation is then reported as no longer shown). -/
 theorem source_text :
     CharonV.Generated.SszWrap.VersionedSignedProposal_MarshalSSZTo =
-      ["version, err := eth2util.DataVersionFromETH2(p.Version)",
-       "if err != nil { return nil, errors.Wrap(err, \"invalid version\") }",
-       "return marshalSSZVersionedBlindedTo(buf, version, p.Blinded, p.sszValFromVersion)"] ∧
+      ["v0, v1 := eth2util.DataVersionFromETH2(r0.Version)",
+       "if v1 != nil { return nil, errors.Wrap(v1, \"invalid version\") }",
+       "return marshalSSZVersionedBlindedTo(p0, v0, r0.Blinded, r0.sszValFromVersion)"] ∧
     CharonV.Generated.SszWrap.VersionedSignedProposal_UnmarshalSSZ =
-      ["version, blinded, err := unmarshalSSZVersionedBlinded(buf, p.sszValFromVersion)",
-       "if err != nil { return errors.Wrap(err, \"unmarshal VersionedSignedProposal\") }",
-       "p.Version = version.ToETH2()", "p.Blinded = blinded", "return nil"] ∧
+      ["v0, v1, v2 := unmarshalSSZVersionedBlinded(p0, r0.sszValFromVersion)",
+       "if v2 != nil { return errors.Wrap(v2, \"unmarshal VersionedSignedProposal\") }", "r0.Version = v0.ToETH2()",
+       "r0.Blinded = v1", "return nil"] ∧
     CharonV.Generated.SszWrap.VersionedProposal_MarshalSSZTo =
-      ["version, err := eth2util.DataVersionFromETH2(p.Version)",
-       "if err != nil { return nil, errors.Wrap(err, \"invalid version\") }",
-       "return marshalSSZVersionedBlindedTo(buf, version, p.Blinded, p.sszValFromVersion)"] ∧
+      ["v0, v1 := eth2util.DataVersionFromETH2(r0.Version)",
+       "if v1 != nil { return nil, errors.Wrap(v1, \"invalid version\") }",
+       "return marshalSSZVersionedBlindedTo(p0, v0, r0.Blinded, r0.sszValFromVersion)"] ∧
     CharonV.Generated.SszWrap.VersionedProposal_UnmarshalSSZ =
-      ["version, blinded, err := unmarshalSSZVersionedBlinded(buf, p.sszValFromVersion)",
-       "if err != nil { return errors.Wrap(err, \"unmarshal VersionedProposal\") }",
-       "p.Version = version.ToETH2()", "p.Blinded = blinded", "return nil"] ∧
+      ["v0, v1, v2 := unmarshalSSZVersionedBlinded(p0, r0.sszValFromVersion)",
+       "if v2 != nil { return errors.Wrap(v2, \"unmarshal VersionedProposal\") }", "r0.Version = v0.ToETH2()",
+       "r0.Blinded = v1", "return nil"] ∧
     CharonV.Generated.SszWrap.VersionedAttestation_MarshalSSZTo =
-      ["version, err := eth2util.DataVersionFromETH2(a.Version)",
-       "if err != nil { return nil, errors.Wrap(err, \"invalid version\") }",
-       "if a.ValidatorIndex == nil { return marshalSSZVersionedTo(dst, version, a.sszValFromVersion) }",
-       "valIdx := *a.ValidatorIndex",
-       "return marshalSSZVersionedValidatorIdxTo(dst, version, valIdx, a.sszValFromVersion)"] ∧
+      ["v0, v1 := eth2util.DataVersionFromETH2(r0.Version)",
+       "if v1 != nil { return nil, errors.Wrap(v1, \"invalid version\") }",
+       "if r0.ValidatorIndex == nil { return marshalSSZVersionedTo(p0, v0, r0.sszValFromVersion) }",
+       "v2 := *r0.ValidatorIndex", "return marshalSSZVersionedValidatorIdxTo(p0, v0, v2, r0.sszValFromVersion)"] ∧
     CharonV.Generated.SszWrap.VersionedAttestation_UnmarshalSSZ =
-      ["version, valIdx, err := unmarshalSSZVersionedValidatorIdx(b, a.sszValFromVersion)",
-       "if err != nil { var errNoIdx error version, errNoIdx = unmarshalSSZVersioned(b, a.sszValFromVersion) if errNoIdx != nil { if !errors.Is(err, ssz.ErrOffset) { return errors.Wrap(err, \"unmarshal VersionedAttestation\") } return errors.Wrap(errNoIdx, \"unmarshal VersionedAttestation without validator index\") } valIdx = nil }",
-       "a.Version = version.ToETH2()", "a.ValidatorIndex = valIdx", "return nil"] ∧
+      ["v0, v1, v2 := unmarshalSSZVersionedValidatorIdx(p0, r0.sszValFromVersion)",
+       "if v2 != nil { var v3 error v0, v3 = unmarshalSSZVersioned(p0, r0.sszValFromVersion) if v3 != nil { if !errors.Is(v2, ssz.ErrOffset) { return errors.Wrap(v2, \"unmarshal VersionedAttestation\") } return errors.Wrap(v3, \"unmarshal VersionedAttestation without validator index\") } v1 = nil }",
+       "r0.Version = v0.ToETH2()", "r0.ValidatorIndex = v1", "return nil"] ∧
     CharonV.Generated.SszWrap.VersionedSignedAggregateAndProof_MarshalSSZTo =
-      ["version, err := eth2util.DataVersionFromETH2(ap.Version)",
-       "if err != nil { return nil, errors.Wrap(err, \"invalid version\") }",
-       "return marshalSSZVersionedTo(dst, version, ap.sszValFromVersion)"] ∧
+      ["v0, v1 := eth2util.DataVersionFromETH2(r0.Version)",
+       "if v1 != nil { return nil, errors.Wrap(v1, \"invalid version\") }",
+       "return marshalSSZVersionedTo(p0, v0, r0.sszValFromVersion)"] ∧
     CharonV.Generated.SszWrap.VersionedSignedAggregateAndProof_UnmarshalSSZ =
-      ["version, err := unmarshalSSZVersioned(b, ap.sszValFromVersion)",
-       "if err != nil { return errors.Wrap(err, \"unmarshal VersionedSignedAggregateAndProof\") }",
-       "ap.Version = version.ToETH2()", "return nil"] ∧
+      ["v0, v1 := unmarshalSSZVersioned(p0, r0.sszValFromVersion)",
+       "if v1 != nil { return errors.Wrap(v1, \"unmarshal VersionedSignedAggregateAndProof\") }",
+       "r0.Version = v0.ToETH2()", "return nil"] ∧
     CharonV.Generated.SszWrap.VersionedAggregatedAttestation_MarshalSSZTo =
-      ["version, err := eth2util.DataVersionFromETH2(a.Version)",
-       "if err != nil { return nil, errors.Wrap(err, \"invalid version\") }",
-       "return marshalSSZVersionedTo(dst, version, a.sszValFromVersion)"] ∧
+      ["v0, v1 := eth2util.DataVersionFromETH2(r0.Version)",
+       "if v1 != nil { return nil, errors.Wrap(v1, \"invalid version\") }",
+       "return marshalSSZVersionedTo(p0, v0, r0.sszValFromVersion)"] ∧
     CharonV.Generated.SszWrap.VersionedAggregatedAttestation_UnmarshalSSZ =
-      ["version, err := unmarshalSSZVersioned(b, a.sszValFromVersion)",
-       "if err != nil { return errors.Wrap(err, \"unmarshal VersionedAggregatedAttestation\") }",
-       "a.Version = version.ToETH2()", "return nil"] ∧
+      ["v0, v1 := unmarshalSSZVersioned(p0, r0.sszValFromVersion)",
+       "if v1 != nil { return errors.Wrap(v1, \"unmarshal VersionedAggregatedAttestation\") }",
+       "r0.Version = v0.ToETH2()", "return nil"] ∧
     CharonV.Generated.SszWrap.AttestationData_MarshalSSZTo =
-      ["offset := 4 + 4", "dst = ssz.WriteOffset(dst, offset)", "offset += a.Data.SizeSSZ()",
-       "dst = ssz.WriteOffset(dst, offset)", "dst, err := a.Data.MarshalSSZTo(dst)",
-       "if err != nil { return nil, errors.Wrap(err, \"marshal attestation data\") }",
-       "dst, err = attesterDutySSZ(a.Duty).MarshalSSZTo(dst)",
-       "if err != nil { return nil, errors.Wrap(err, \"marshal attester duty\") }", "return dst, nil"] ∧
+      ["v0 := 4 + 4", "p0 = ssz.WriteOffset(p0, v0)", "v0 += r0.Data.SizeSSZ()", "p0 = ssz.WriteOffset(p0, v0)",
+       "p0, v1 := r0.Data.MarshalSSZTo(p0)",
+       "if v1 != nil { return nil, errors.Wrap(v1, \"marshal attestation data\") }",
+       "p0, v1 = attesterDutySSZ(r0.Duty).MarshalSSZTo(p0)",
+       "if v1 != nil { return nil, errors.Wrap(v1, \"marshal attester duty\") }", "return p0, nil"] ∧
     CharonV.Generated.SszWrap.AttestationData_UnmarshalSSZ =
-      ["minSize := uint64(4 + 4)", "size := uint64(len(buf))",
-       "if size < minSize { return errors.Wrap(ssz.ErrSize, \"attestation data too short\") }",
-       "o0 := ssz.ReadOffset(buf[0:4])",
-       "if size < o0 || minSize > o0 { return errors.Wrap(ssz.ErrOffset, \"attestation data offset\") }",
-       "o1 := ssz.ReadOffset(buf[4:8])",
-       "if size < o1 || o0 > o1 { return errors.Wrap(ssz.ErrOffset, \"attester duty offset\") }",
-       "if err := a.Data.UnmarshalSSZ(buf[o0:o1]); err != nil { return errors.Wrap(err, \"unmarshal attestation data\") }",
-       "if err := (*attesterDutySSZ)(&a.Duty).UnmarshalSSZ(buf[o1:]); err != nil { return errors.Wrap(err, \"unmarshal attester duty\") }",
+      ["v0 := uint64(4 + 4)", "v1 := uint64(len(p0))",
+       "if v1 < v0 { return errors.Wrap(ssz.ErrSize, \"attestation data too short\") }",
+       "v2 := ssz.ReadOffset(p0[0:4])",
+       "if v1 < v2 || v0 > v2 { return errors.Wrap(ssz.ErrOffset, \"attestation data offset\") }",
+       "v3 := ssz.ReadOffset(p0[4:8])",
+       "if v1 < v3 || v2 > v3 { return errors.Wrap(ssz.ErrOffset, \"attester duty offset\") }",
+       "if v4 := r0.Data.UnmarshalSSZ(p0[v2:v3]); v4 != nil { return errors.Wrap(v4, \"unmarshal attestation data\") }",
+       "if v5 := (*attesterDutySSZ)(&r0.Duty).UnmarshalSSZ(p0[v3:]); v5 != nil { return errors.Wrap(v5, \"unmarshal attester duty\") }",
        "return nil"] ∧
     CharonV.Generated.SszWrap.attesterDutySSZ_MarshalSSZTo =
-      ["dst = append(dst, a.PubKey[:]...)", "dst = ssz.MarshalUint64(dst, uint64(a.Slot))",
-       "dst = ssz.MarshalUint64(dst, uint64(a.ValidatorIndex))", "dst = ssz.MarshalUint64(dst, uint64(a.CommitteeIndex))",
-       "dst = ssz.MarshalUint64(dst, a.CommitteeLength)", "dst = ssz.MarshalUint64(dst, a.CommitteesAtSlot)",
-       "dst = ssz.MarshalUint64(dst, a.ValidatorCommitteeIndex)", "return dst, nil"] ∧
-    CharonV.Generated.SszWrap.attesterDutySSZ_SizeSSZ = ["return 48 + 6*8"] ∧
+      ["p0 = append(p0, r0.PubKey[:]...)", "p0 = ssz.MarshalUint64(p0, uint64(r0.Slot))",
+       "p0 = ssz.MarshalUint64(p0, uint64(r0.ValidatorIndex))",
+       "p0 = ssz.MarshalUint64(p0, uint64(r0.CommitteeIndex))", "p0 = ssz.MarshalUint64(p0, r0.CommitteeLength)",
+       "p0 = ssz.MarshalUint64(p0, r0.CommitteesAtSlot)", "p0 = ssz.MarshalUint64(p0, r0.ValidatorCommitteeIndex)",
+       "return p0, nil"] ∧
+    CharonV.Generated.SszWrap.attesterDutySSZ_SizeSSZ =
+      ["return 48 + 6*8"] ∧
     CharonV.Generated.SszWrap.attesterDutySSZ_UnmarshalSSZ =
-      ["if len(buf) < a.SizeSSZ() { return errors.Wrap(ssz.ErrSize, \"attesterDuty unmarshal\") }",
-       "offset := 0", "next := 48", "copy(a.PubKey[:], buf[offset:next])", "offset, next = next, next+8",
-       "a.Slot = eth2p0.Slot(ssz.UnmarshallUint64(buf[offset:next]))", "offset, next = next, next+8",
-       "a.ValidatorIndex = eth2p0.ValidatorIndex(ssz.UnmarshallUint64(buf[offset:next]))", "offset, next = next, next+8",
-       "a.CommitteeIndex = eth2p0.CommitteeIndex(ssz.UnmarshallUint64(buf[offset:next]))", "offset, next = next, next+8",
-       "a.CommitteeLength = ssz.UnmarshallUint64(buf[offset:next])", "offset, next = next, next+8",
-       "a.CommitteesAtSlot = ssz.UnmarshallUint64(buf[offset:next])", "offset, next = next, next+8",
-       "a.ValidatorCommitteeIndex = ssz.UnmarshallUint64(buf[offset:next])", "return nil"] ∧
+      ["if len(p0) < r0.SizeSSZ() { return errors.Wrap(ssz.ErrSize, \"attesterDuty unmarshal\") }", "v0 := 0",
+       "v1 := 48", "copy(r0.PubKey[:], p0[v0:v1])", "v0, v1 = v1, v1+8",
+       "r0.Slot = eth2p0.Slot(ssz.UnmarshallUint64(p0[v0:v1]))", "v0, v1 = v1, v1+8",
+       "r0.ValidatorIndex = eth2p0.ValidatorIndex(ssz.UnmarshallUint64(p0[v0:v1]))", "v0, v1 = v1, v1+8",
+       "r0.CommitteeIndex = eth2p0.CommitteeIndex(ssz.UnmarshallUint64(p0[v0:v1]))", "v0, v1 = v1, v1+8",
+       "r0.CommitteeLength = ssz.UnmarshallUint64(p0[v0:v1])", "v0, v1 = v1, v1+8",
+       "r0.CommitteesAtSlot = ssz.UnmarshallUint64(p0[v0:v1])", "v0, v1 = v1, v1+8",
+       "r0.ValidatorCommitteeIndex = ssz.UnmarshallUint64(p0[v0:v1])", "return nil"] ∧
     CharonV.Generated.SszWrap.proto_marshal =
-      ["if marshaller, ok := v.(ssz.Marshaler); ok && sszMarshallingEnabled { b, err := marshaller.MarshalSSZ() if err != nil { return nil, errors.Wrap(err, \"marshal ssz\") } return b, nil }",
-       "b, err := json.Marshal(v)", "if err != nil { return nil, errors.Wrap(err, \"marshal json\") }", "return b, nil"] ∧
+      ["if v0, v1 := p0.(ssz.Marshaler); v1 && sszMarshallingEnabled { v2, v3 := v0.MarshalSSZ() if v3 != nil { return nil, errors.Wrap(v3, \"marshal ssz\") } return v2, nil }",
+       "v4, v5 := json.Marshal(p0)", "if v5 != nil { return nil, errors.Wrap(v5, \"marshal json\") }",
+       "return v4, nil"] ∧
     CharonV.Generated.SszWrap.proto_unmarshal =
-      ["if unmarshaller, ok := v.(ssz.Unmarshaler); ok { if err := unmarshaller.UnmarshalSSZ(data); err == nil { return nil } else if !bytes.HasPrefix(bytes.TrimSpace(data), []byte(\"{\")) { return errors.Wrap(err, \"unmarshal ssz\") } }",
-       "if err := json.Unmarshal(data, v); err != nil { return errors.Wrap(err, \"unmarshal json\") }", "return nil"] ∧
+      ["if v0, v1 := p1.(ssz.Unmarshaler); v1 { if v2 := v0.UnmarshalSSZ(p0); v2 == nil { return nil } else if !bytes.HasPrefix(bytes.TrimSpace(p0), []byte(\"{\")) { return errors.Wrap(v2, \"unmarshal ssz\") } }",
+       "if v3 := json.Unmarshal(p0, p1); v3 != nil { return errors.Wrap(v3, \"unmarshal json\") }", "return nil"] ∧
     CharonV.Generated.SszWrap.ParSignedDataSetToProto =
-      ["inner := make(map[string]*pbv1.ParSignedData)",
-       "for pubkey, data := range set { pb, err := ParSignedDataToProto(data) if err != nil { return nil, err } inner[string(pubkey)] = pb }",
-       "return &pbv1.ParSignedDataSet{ Set: inner, }, nil"] ∧
+      ["v0 := make(map[string]*pbv1.ParSignedData)",
+       "for v1, v2 := range p0 { v3, v4 := ParSignedDataToProto(v2) if v4 != nil { return nil, v4 } v0[string(v1)] = v3 }",
+       "return &pbv1.ParSignedDataSet{ Set: v0, }, nil"] ∧
     CharonV.Generated.SszWrap.ParSignedDataSetFromProto =
-      ["if set == nil || len(set.GetSet()) == 0 { return nil, errors.New(\"invalid partial signed data set proto fields\", z.Any(\"set\", set)) }",
-       "var ( resp = make(ParSignedDataSet) err error )",
-       "for pubkey, data := range set.GetSet() { resp[PubKey(pubkey)], err = ParSignedDataFromProto(typ, data) if err != nil { return nil, err } }",
-       "return resp, nil"] ∧
+      ["if p1 == nil || len(p1.GetSet()) == 0 { return nil, errors.New(\"invalid partial signed data set proto fields\", z.Any(\"set\", p1)) }",
+       "var ( v0 = make(ParSignedDataSet) v1 error )",
+       "for v2, v3 := range p1.GetSet() { v0[PubKey(v2)], v1 = ParSignedDataFromProto(p0, v3) if v1 != nil { return nil, v1 } }",
+       "return v0, nil"] ∧
     CharonV.Generated.SszWrap.UnsignedDataSetToProto =
-      ["inner := make(map[string][]byte)",
-       "for pubkey, data := range set { var err error inner[string(pubkey)], err = marshal(data) if err != nil { return nil, err } }",
-       "return &pbv1.UnsignedDataSet{ Set: inner, }, nil"] ∧
+      ["v0 := make(map[string][]byte)",
+       "for v1, v2 := range p0 { var v3 error v0[string(v1)], v3 = marshal(v2) if v3 != nil { return nil, v3 } }",
+       "return &pbv1.UnsignedDataSet{ Set: v0, }, nil"] ∧
     CharonV.Generated.SszWrap.UnsignedDataSetFromProto =
-      ["defer func() { if r := recover(); r != nil { oerr = recoverPanicErr(r) } }()",
-       "if set == nil || len(set.GetSet()) == 0 { return nil, errors.New(\"invalid unsigned data set fields\", z.Any(\"set\", set)) }",
-       "resp := make(UnsignedDataSet)",
-       "for pubkey, data := range set.GetSet() { var err error resp[PubKey(pubkey)], err = unmarshalUnsignedData(typ, data) if err != nil { return nil, err } if _, err = resp[PubKey(pubkey)].Clone(); err != nil { return nil, errors.Wrap(err, \"incomplete unsigned data\") } }",
-       "return resp, nil"] := by
+      ["defer func() { if v0 := recover(); v0 != nil { o1 = recoverPanicErr(v0) } }()",
+       "if p1 == nil || len(p1.GetSet()) == 0 { return nil, errors.New(\"invalid unsigned data set fields\", z.Any(\"set\", p1)) }",
+       "v1 := make(UnsignedDataSet)",
+       "for v2, v3 := range p1.GetSet() { var v4 error v1[PubKey(v2)], v4 = unmarshalUnsignedData(p0, v3) if v4 != nil { return nil, v4 } if _, v4 = v1[PubKey(v2)].Clone(); v4 != nil { return nil, errors.Wrap(v4, \"incomplete unsigned data\") } }",
+       "return v1, nil"] := by
   refine ⟨rfl, rfl, rfl, rfl, rfl, rfl, rfl, rfl, rfl, rfl, rfl, rfl, rfl, rfl, rfl, rfl, rfl, rfl, rfl, rfl, rfl⟩
 
 /-! ## (a) versioned-blinded wrapper (VersionedSignedProposal, VersionedProposal) -/
